@@ -854,6 +854,23 @@ def gen_exhaustive(depth, nmem):
   return out
 
 
+def gen_membership_exhaustive(depth):
+  """Every sequence of `depth` notifications over endpoints {0, 1}, with Init ([0]) placed at every position."""
+  alpha = [['join', 0], ['join', 1], ['leave', 0], ['leave', 1]]
+  out = []
+  def rec(prefix):
+    if len(prefix) == depth:
+      for pos in range(0, depth + 1, 2):
+        ops = prefix[:pos] + [['init', [0], 0]] + prefix[pos:]
+        ops = ops[:pos + 2] + [['dispatch']] + ops[pos + 2:] + [['burst']]
+        out.append({'kind': 'heap', 'st0': 2, 'ops': ops})
+      return
+    for a in alpha:
+      rec(prefix + [a])
+  rec([])
+  return out
+
+
 def gen_cases(pid, tier, seed, n_quick, n_thorough):
   n = n_quick if tier == 'quick' else n_thorough
   out = []
